@@ -346,11 +346,107 @@ func ruleIDsDelivered(c *Ctx) {
 	}
 }
 
+// rulePlannedPeerIDs: a peer that an operator will *create* gets its id from
+// the allocator unless the requester named one. Two places decide that:
+// the builder's target description is fixed by its configuration methods and
+// read-only while planning (a planner that writes a normalised existing peer
+// back into it makes a later "needs an id" test see a non-zero id), and the
+// merge helper describes the target placement by store and role only (handing
+// over the other region's peers would reuse their ids).
+func rulePlannedPeerIDs(c *Ctx) {
+	P := c.P
+	rule := c.Prop + "/ids-delivered"
+	const opk = "server/schedule/operator"
+	target := P.Field(opk, "Builder", "targetPeers")
+	set := P.Method(opk, "peersMap", "Set")
+	allowed := map[string]bool{
+		"(*server/schedule/operator.Builder).AddPeer": true, "(*server/schedule/operator.Builder).RemovePeer": true,
+		"(*server/schedule/operator.Builder).PromoteLearner": true, "(*server/schedule/operator.Builder).DemoteVoter": true,
+		"(*server/schedule/operator.Builder).SetPeers": true, "server/schedule/operator.NewBuilder": true,
+	}
+	n := 0
+	for _, fn := range P.Funcs {
+		if fnPkgPath(fn) != modPath+"/"+opk || P.isScaffold(fn) {
+			continue
+		}
+		for _, b := range fn.Blocks {
+			for _, ins := range b.Instrs {
+				var m ssa.Value
+				switch x := ins.(type) {
+				case *ssa.MapUpdate:
+					m = x.Map
+				case *ssa.Call:
+					if bi, ok := x.Call.Value.(*ssa.Builtin); ok && bi.Name() == "delete" && len(x.Call.Args) == 2 {
+						m = x.Call.Args[0]
+					}
+				}
+				if m == nil || !isLoadOf(m, target) {
+					continue
+				}
+				n++
+				name := fnName(outer(fn))
+				c.Check(allowed[name], rule, "change of the target peers in "+name, "only the builder's configuration methods edit the target description; planning reads it", P.instrPos(ins), "")
+			}
+		}
+	}
+	for _, m := range []*ssa.Function{set} {
+		sites, _ := c.nonScaffoldCallers(m)
+		for _, s := range sites {
+			recv := callRecv(s.Instr.Common())
+			if recv == nil || !isLoadOf(recv, target) {
+				continue
+			}
+			n++
+			name := fnName(outer(s.Caller))
+			c.Check(allowed[name], rule, "change of the target peers in "+name, "only the builder's configuration methods edit the target description; planning reads it", P.instrPos(s.Instr), "")
+		}
+	}
+	for name, accs := range P.writersOf(target) {
+		c.Check(allowed[name], rule, "assignment of the target peers in "+name, "only the builder's configuration methods", P.instrPos(accs[0].Ins), "")
+	}
+	if n < 3 {
+		c.Undec(rule, "edits of Builder.targetPeers", "at least 3", "", fmt.Sprint(n))
+	}
+	// merge: the map given to SetPeers holds fresh peers without an id
+	merge := P.Func(opk, "CreateMergeRegionOperator")
+	setPeers := F(P.Method(opk, "Builder", "SetPeers"))
+	peerID := P.Field("github.com/pingcap/kvproto/pkg/metapb", "Peer", "Id")
+	k := 0
+	for _, ci := range callsIn(merge, false, setPeers) {
+		a := callArgs(ci.Common())
+		if len(a) != 1 {
+			continue
+		}
+		for _, b := range merge.Blocks {
+			for _, ins := range b.Instrs {
+				mu, ok := ins.(*ssa.MapUpdate)
+				if !ok || !sameVal(mu.Map, a[0]) {
+					continue
+				}
+				k++
+				al, isFresh := mu.Value.(*ssa.Alloc)
+				idSet := false
+				if isFresh {
+					for _, r := range *al.Referrers() {
+						if fa, ok := r.(*ssa.FieldAddr); ok && fieldOfAddr(fa) == peerID {
+							idSet = true
+						}
+					}
+				}
+				c.Check(isFresh && !idSet, rule, "target description in "+fnName(merge), "each entry is a fresh peer naming store and role only (its id is allocated by the builder)", P.instrPos(mu), "")
+			}
+		}
+	}
+	if k == 0 {
+		c.Undec(rule, "peers map in "+fnName(merge), "found", P.pos(merge.Pos()), "")
+	}
+}
+
 func init() {
 	register("C04", "Allocated ids are unique forever", func(c *Ctx) {
 		c.Group("C04/id-window", "premises of the invariant base <= end <= stored end: base++ only below end or after a successful rebase; end/base installed only after the window transaction was applied, with the value that was put; lock held", func() { ruleIDAllocator(c) })
 		c.Group("C04/single-allocator", "one allocator instance per server", func() { ruleSingleAllocator(c) })
-		c.Group("C04/ids-delivered", "allocated ids are used only after the error test and every batch has its own buffer", func() { ruleIDsDelivered(c) })
+		c.Group("C04/ids-delivered", "allocated ids are used only after the error test and every batch has its own buffer", func() { ruleIDsDelivered(c); rulePlannedPeerIDs(c) })
 		c.Group("C04/leader-guarded-write", "(shared with C03) the id-window write carries the leader comparator", func() { ruleLeaderOnlyKeys(c, "id window") })
 		c.Group("C04/serve-after-init", "(shared with C03) a new leader rebases the id window before it serves", func() { ruleStepUpDown(c) })
 		c.Group("C04/not-leader-refused", "(shared with C03) id allocation is refused by a non-leader", func() { ruleHandlersValidate(c) })
